@@ -24,6 +24,7 @@ STUBS = [
     "xonsh.lib.lazyjson.LazyJSON -> dict-like view of the symbolic per-file record (files() obligations)",
     "os.path.getsize/getmtime, _xhj_get_history_files, uptime.boottime -> symbolic values",
     "f-string rendering of symbolic numbers (warning/debug messages) -> constant placeholder",
+    "tempfile.mkstemp / os.fdopen / os.replace as seen from xonsh.history.json -> recorder of atomically replaced files (files() obligations)",
     "builtins.open as seen from xonsh.history.json -> recorder of rewritten files (files() obligations)",
 ]
 ASSUMPTIONS = [
@@ -331,8 +332,44 @@ def _run_files(world, boot, only_unlocked, rewritten):
         def getmtime(f):
             return disk[f]["mtime"]
 
+    pending = {}  # temp name -> what was dumped into it
+
+    class _Tmp:
+        def __init__(self, name):
+            self.name = name
+
+        def __enter__(self):
+            return self
+
+        def __exit__(self, *a):
+            return False
+
+        def write(self, s_):
+            return len(s_)
+
+    fds = {}
+
     class O:
         path = P
+
+        @staticmethod
+        def fdopen(fd, *a, **k):
+            return _Tmp(fds[fd])
+
+        @staticmethod
+        def replace(src, dst):
+            # the rewrite becomes visible atomically here
+            rewritten.append(dst)
+            disk[dst].update(locked=pending.pop(src))
+
+    P.dirname = staticmethod(lambda f: "")
+
+    class TF:
+        @staticmethod
+        def mkstemp(dir=None, suffix="", **k):
+            fd = 500 + len(fds)
+            fds[fd] = f"tmp{fd}{suffix}"
+            return fd, fds[fd]
 
     def LazyJSON(f, reopen=True):
         if disk[f]["bad"]:
@@ -340,8 +377,11 @@ def _run_files(world, boot, only_unlocked, rewritten):
         return _LJ(disk[f])
 
     def ljdump(obj, fp, sort_keys=False):
-        # the rewrite stores what it was given
-        disk[rewritten[-1]].update(locked=obj["locked"])
+        # the rewrite stores what it was given: in a temp file (current code) or in place (recorded by hj.open)
+        if isinstance(fp, _Tmp):
+            pending[fp.name] = obj["locked"]
+        else:
+            disk[rewritten[-1]].update(locked=obj["locked"])
 
     class X:
         pass
@@ -355,8 +395,8 @@ def _run_files(world, boot, only_unlocked, rewritten):
         def boottime():
             return boot
 
-    saved = (hj.os, hj.xlj, hj.uptime, hj._xhj_get_history_files, XSH.env, hj.time)
-    hj.os, hj.xlj, hj.uptime = O, x, U
+    saved = (hj.os, hj.xlj, hj.uptime, hj._xhj_get_history_files, XSH.env, hj.time, hj.tempfile)
+    hj.os, hj.xlj, hj.uptime, hj.tempfile = O, x, U, TF
     hj._xhj_get_history_files = lambda sort=True, **k: list(disk)
     hj.open = lambda f, *a, **k: _Opened(rewritten, f)
     hj.time = _Clock(0)
@@ -365,7 +405,7 @@ def _run_files(world, boot, only_unlocked, rewritten):
     try:
         return gc.files(only_unlocked=only_unlocked), disk
     finally:
-        hj.os, hj.xlj, hj.uptime, hj._xhj_get_history_files, XSH.env, hj.time = saved
+        hj.os, hj.xlj, hj.uptime, hj._xhj_get_history_files, XSH.env, hj.time, hj.tempfile = saved
         del hj.open
 
 
@@ -503,8 +543,8 @@ OBLIGATIONS = [
     Obligation("gc_run", ob_run,
                bounds="<=3 / <=6 unlocked files, every unit, force flag, one optional failing os.remove; limit from the environment or (<=2 files) from `--size` through to_history_tuple with an alias unit spelling",
                pre=["len(recs) <= nmax", "hsize >= 0", "now >= 0", "-1 <= fail < nmax"],
-               parts={"quick": [dict(nmax=3, unit=u) for u in range(4)] + [dict(nmax=2, unit=u, size_given=True, fail=-1) for u in (0, 1, 3)],
-                      "thorough": [dict(nmax=6, unit=u) for u in range(4)]},
+               parts={"quick": [dict(nmax=3, unit=u, size_given=False) for u in range(4)] + [dict(nmax=2, unit=u, size_given=True, fail=-1) for u in (0, 1, 3)],
+                      "thorough": [dict(nmax=6, unit=u, size_given=False) for u in range(4)] + [dict(nmax=3, unit=u, size_given=True, fail=-1) for u in (0, 1, 3)]},
                timeout={"quick": 240, "thorough": 1200},
                symbolic="hsize, force, now, index of failing remove, " + _REC),
     Obligation("gc_files_filter", ob_files_filter,
